@@ -21,6 +21,7 @@ class Device:
         self.released = 0
         self.hung_up = False      # the device closed itself (like a peer EOF)
         self.fail_send_at = None  # 1-based index of the _send call to fail
+        self.fail_receive_at = None   # index of the _receive call to fail
         self.send_calls = 0
         self.receive_calls = []   # block= argument of every _receive call
         self.log = []             # ordered ('send', msg) / ('close',) events
@@ -33,8 +34,10 @@ class Device:
                      else self.fail_send_at - self.send_calls)
         if remaining is not None and remaining <= 0:
             remaining = None
+        rrem = (None if self.fail_receive_at is None
+                else self.fail_receive_at - len(self.receive_calls))
         return (self.name, tuple((m.velocity, m.note) for m in self.incoming),
-                self.hung_up, self.released, self.opened, remaining)
+                self.hung_up, self.released, self.opened, remaining, rrem)
 
 
 _DOUBLES = {}
@@ -74,6 +77,10 @@ def _make_doubles(mido):
         def _receive(self, block=True):
             d = self.dev
             d.receive_calls.append(block)
+            if d.fail_receive_at is not None and \
+                    len(d.receive_calls) == d.fail_receive_at:
+                d.fail_receive_at = None
+                raise OSError('device read failed (injected)')
             if self._dev_style == 'direct':
                 if d.incoming:
                     m = d.incoming.pop(0)
